@@ -118,7 +118,9 @@ CLAIMS = {
             "matching it against the model's state set, and re-running to convergence.",
             "Modelled, not verified: kill = stop between two system calls, no power loss; convergence of the rerun is established by the runs, not by a theorem.",
             "DESIGN.md section 5-C12"),
-    "C19": ("The C12/C09 Coq theorems hold with any single operation failing (fault = (k, errno) is universally quantified): all states stay old-or-final and a reported replacement is complete. "
+    "C19": ("The C12/C09 Coq theorems hold with any single operation failing (fault = (k, errno) is universally quantified): all states stay old-or-final and a reported replacement is complete; "
+            "the temporary name is unbound at the end unless a removal is among the failed calls; a run whose result is not Error met no failed call other than the tolerated ones (removal of the "
+            "temporary file, refused chown, EEXIST on the first creation), i.e. every other failure is reported and counted; the walk goes on over the remaining entries. "
             "Tied to the code by strace error injection (ENOSPC/EIO/EACCES/EPERM) on the first occurrence of every file-system operation kind, comparing class and final state with "
             "the model run under the same fault; oracle: file old-or-final, temp removed unless unlink failed, failure counted, exit non-zero, refused chown tolerated; parallel runs whose "
             "workers are all killed must terminate and fail.",
